@@ -41,7 +41,6 @@ def lock_discipline(repo):
                 if isinstance(t, ast.Attribute) and t.attr in lock_names:
                     lock_names.discard(t.attr)
     shared = bool(lock_names)
-    get_level = next(n for n in av.body if isinstance(n, ast.FunctionDef) and n.name == "_get_level")
 
     def is_lock_with(w):
         return isinstance(w, ast.With) and any(
@@ -49,32 +48,126 @@ def lock_discipline(repo):
             and ast.unparse(i.context_expr.value) in ("Av", "cls", "self", "type(self)", "self.__class__")
             for i in w.items)
 
-    def calls_ensure(node):
-        return any(isinstance(c, ast.Call) and isinstance(c.func, ast.Attribute) and c.func.attr == "_ensure_level"
-                   for c in ast.walk(node))
+    # The methods are found by what they do, not by their names (a maintainer may rename private methods):
+    #   an UNLOCKED WRITER is a method that changes `self.cache` (assignment to it or to one of its items, or a call
+    #   of a mutating list method on it) outside a `with <lock>` block, or calls an unlocked writer (self.<m>(...))
+    #   outside a `with <lock>` block  -  least fixpoint.  In the source these are _ensure_level and the two builders.
+    methods = {n.name: n for n in av.body if isinstance(n, ast.FunctionDef)}
+    _MUT = {"append", "extend", "insert", "pop", "clear", "remove", "sort", "reverse", "__setitem__", "__delitem__"}
 
-    # every call of _ensure_level anywhere in the class must be lexically inside `with Av._CACHE_LOCK`
-    under = True
-    found_call = False
-    for fn in [n for n in av.body if isinstance(n, ast.FunctionDef)]:
-        locked_nodes = set()
+    def locked_ids(fn):
+        ids = set()
         for w in ast.walk(fn):
             if is_lock_with(w):
                 for sub in ast.walk(w):
-                    locked_nodes.add(id(sub))
-        for c in ast.walk(fn):
-            if isinstance(c, ast.Call) and isinstance(c.func, ast.Attribute) and c.func.attr == "_ensure_level":
-                found_call = True
-                if id(c) not in locked_nodes:
-                    under = False
-    under = under and found_call
-    # in _get_level: the statement that reads self.cache for the result comes after the `with`
+                    ids.add(id(sub))
+        return ids
+
+    def is_cache(e):
+        return _is_attr(e, "self", "cache")
+
+    def direct_unlocked_write(fn):
+        lk = locked_ids(fn)
+        for n in ast.walk(fn):
+            if id(n) in lk:
+                continue
+            if isinstance(n, (ast.Assign, ast.AugAssign, ast.AnnAssign, ast.Delete)):
+                tg = n.targets if isinstance(n, (ast.Assign, ast.Delete)) else [n.target]
+                for t in tg:
+                    for x in ast.walk(t):
+                        if is_cache(x) or (isinstance(x, ast.Subscript) and is_cache(x.value)):
+                            return True
+            if isinstance(n, ast.Call) and isinstance(n.func, ast.Attribute) and n.func.attr in _MUT and is_cache(n.func.value):
+                return True
+        return False
+
+    def self_calls(fn, only_unlocked):
+        lk = locked_ids(fn) if only_unlocked else set()
+        return {c.func.attr for c in ast.walk(fn)
+                if isinstance(c, ast.Call) and isinstance(c.func, ast.Attribute) and isinstance(c.func.value, ast.Name)
+                and c.func.value.id == "self" and c.func.attr in methods and id(c) not in lk}
+
+    unlocked = {m for m, fn in methods.items() if direct_unlocked_write(fn)}
+    changed = True
+    while changed:
+        changed = False
+        for m, fn in methods.items():
+            if m not in unlocked and self_calls(fn, True) & unlocked:
+                unlocked.add(m)
+                changed = True
+
+    def calls_ensure(node):
+        return any(isinstance(c, ast.Call) and isinstance(c.func, ast.Attribute) and isinstance(c.func.value, ast.Name)
+                   and c.func.value.id == "self" and c.func.attr in unlocked for c in ast.walk(node))
+
+    # the guarded entry point(s): methods with a top-level `with <lock>` block that calls an unlocked writer
+    entries = [fn for fn in methods.values() if any(is_lock_with(st) and calls_ensure(st) for st in fn.body)]
+    if len(entries) != 1:
+        raise ValueError("expected exactly one method that builds levels inside `with <lock>`, found %d" % len(entries))
+    get_level = entries[0]
+    # every way into an unlocked writer goes through a lock: no public or special method is an unlocked writer
+    # (private unlocked writers are reached only from locked regions or from other unlocked writers, by construction)
+    under = not any((not m.startswith("_")) or (m.startswith("__") and m.endswith("__")) for m in unlocked) and bool(unlocked)
+    # optional lock-free fast path (double-checked locking) in front of the `with` block:
+    #     if <conjunction containing  level_number < len(self.cache)>:
+    #         return self.cache[level_number]
+    # the bound may be written `len(self.cache) > level_number` or inside a chained comparison
+    # (`0 <= level_number < len(self.cache)`); every other conjunct only makes the test fire less often and
+    # must be side-effect free (comparisons, names, constants, calls of isinstance/len/type only)
+    params = [a.arg for a in get_level.args.args]
+    lvl = params[1] if len(params) > 1 else None
+
+    def is_lvl(e):
+        return lvl is not None and isinstance(e, ast.Name) and e.id == lvl
+
+    def is_cache_len(e):
+        return (isinstance(e, ast.Call) and isinstance(e.func, ast.Name) and e.func.id == "len" and len(e.args) == 1
+                and not e.keywords and _is_attr(e.args[0], "self", "cache"))
+
+    def conjuncts(t):
+        if isinstance(t, ast.BoolOp) and isinstance(t.op, ast.And):
+            return [c for v in t.values for c in conjuncts(v)]
+        return [t]
+
+    def pure(t):
+        for x in ast.walk(t):
+            if isinstance(x, ast.Call) and not (isinstance(x.func, ast.Name) and x.func.id in ("isinstance", "len", "type")):
+                return False
+            if isinstance(x, (ast.NamedExpr, ast.Await, ast.Yield, ast.YieldFrom, ast.Lambda)):
+                return False
+        return True
+
+    def has_bound(t):
+        for c in conjuncts(t):
+            if isinstance(c, ast.Compare):
+                operands = [c.left] + list(c.comparators)
+                for i, op in enumerate(c.ops):
+                    left, right = operands[i], operands[i + 1]
+                    if isinstance(op, ast.Lt) and is_lvl(left) and is_cache_len(right):
+                        return True
+                    if isinstance(op, ast.Gt) and is_cache_len(left) and is_lvl(right):
+                        return True
+        return False
+
+    def is_fast_path(st):
+        if not (isinstance(st, ast.If) and not st.orelse and len(st.body) == 1 and isinstance(st.body[0], ast.Return)):
+            return False
+        v = st.body[0].value
+        returns_level = (isinstance(v, ast.Subscript) and _is_attr(v.value, "self", "cache") and is_lvl(v.slice))
+        return returns_level and pure(st.test) and has_bound(st.test)
+
+    # in _get_level: the statement that reads self.cache for the result comes after the `with`; the only
+    # read of self.cache allowed before it is the recognised fast path
     read_after = False
     seen_with = False
     reads_before = False
+    fast_path = False
     for st in get_level.body:
         if is_lock_with(st) and calls_ensure(st):
             seen_with = True
+            continue
+        if not seen_with and is_fast_path(st):
+            fast_path = True
             continue
         reads_cache = any(_is_attr(x, "self", "cache") for x in ast.walk(st))
         if reads_cache and not seen_with:
@@ -84,8 +177,12 @@ def lock_discipline(repo):
     read_after = read_after and not reads_before
     return [
         "/-- permset.py `Av._get_level`/`_ensure_level`: (every `_ensure_level` call is inside `with Av._CACHE_LOCK`,",
-        "    the result is read from `self.cache` only after that block, the lock is a class attribute) -/",
+        "    the result is read from `self.cache` only after that block — apart from the recognised lock-free fast path,",
+        "    see `lockFastPath` —, the lock is a class attribute) -/",
         "def lockDiscipline : Bool × Bool × Bool := (%s, %s, %s)" % (_lean_bool(under), _lean_bool(read_after), _lean_bool(shared)),
+        "/-- `Av._get_level` starts with `if <… level_number < len(self.cache) …>: return self.cache[level_number]`",
+        "    (double-checked locking: an existing level is handed out without taking the lock) -/",
+        "def lockFastPath : Bool := %s" % _lean_bool(fast_path and seen_with),
     ]
 
 
